@@ -488,9 +488,9 @@ def make_arc(rng, payload, method=None):
                  extra={"crc_at": 23})
 
 
-def make_arcfs(rng, payload, method=None):
+def make_arcfs(rng, payload, method=None, allow_zero=False):
     method = rng.choice([2, 3]) if method is None else method
-    if crc16_arc(payload) == 0:
+    if crc16_arc(payload) == 0 and not allow_zero:
         return None
     body = rle90(payload) if method == 3 else payload
     pad = rng.choice([0, 0, 4, 36])
@@ -531,6 +531,225 @@ def make_lzx_stored(rng, payload):
     data = hdr + bytes(ent) + name + payload
     return _arch("lzx", "stored", "song.lzx", data, payload,
                  {"magic": (0, 10), "entry": (10, 31), "name": (41, len(name))})
+
+
+# --------------------------------------------------------------------------
+# boundary check values: payloads whose check code is 0 / all ones
+# --------------------------------------------------------------------------
+
+def force_tail(crcfn, data, nbytes, target):
+    """`data` with its last `nbytes` bytes chosen such that crcfn(result) == target.  Every CRC here is affine over
+    GF(2) in the message bits and a bijection on the last `width` bits: solve the 8*nbytes x width system."""
+    prefix = bytes(data[:len(data) - nbytes])
+    n = 8 * nbytes
+    base = crcfn(prefix + bytes(nbytes))
+    cols = [crcfn(prefix + (1 << i).to_bytes(nbytes, "little")) ^ base for i in range(n)]
+    want = target ^ base
+    # Gaussian elimination: rows = output bits, unknowns = message bits
+    rows = []
+    for bit in range(n):
+        coeff = 0
+        for i in range(n):
+            if (cols[i] >> bit) & 1:
+                coeff |= 1 << i
+        rows.append([coeff, (want >> bit) & 1])
+    x = 0
+    piv = []
+    r = 0
+    for c in range(n):
+        k = next((j for j in range(r, len(rows)) if (rows[j][0] >> c) & 1), None)
+        if k is None:
+            continue
+        rows[r], rows[k] = rows[k], rows[r]
+        for j in range(len(rows)):
+            if j != r and (rows[j][0] >> c) & 1:
+                rows[j][0] ^= rows[r][0]
+                rows[j][1] ^= rows[r][1]
+        piv.append((r, c))
+        r += 1
+    for (ri, c) in piv:
+        if rows[ri][1]:
+            x |= 1 << c
+    out = prefix + x.to_bytes(nbytes, "little")
+    if crcfn(out) != target:
+        raise RuntimeError("force_tail: no solution")
+    return out
+
+
+CHECK_FNS = {"crc16": (crc16_arc, 2, (0x0000, 0xFFFF)),
+             "crc32": (crc32_bitwise, 4, (0x00000000, 0xFFFFFFFF)),
+             "bz": (crc32_bz, 4, (0x00000000, 0xFFFFFFFF))}
+
+
+def boundary_payloads(rng):
+    """[(kind, target, payload)]: tiny valid modules whose last sample bytes are chosen so that the check code of the
+    whole payload is 0 resp. all ones (the values a `stored == 0 -> skip` or `~stored` slip would mistreat)."""
+    out = []
+    for kind, (fn, nb, targets) in sorted(CHECK_FNS.items()):
+        for t in targets:
+            p = force_tail(fn, synth_mod(rng, tiny=True), nb, t)
+            out.append((kind, t, p))
+    return out
+
+
+def boundary_archives(rng):
+    """archives of the boundary payloads in every format whose gate compares that check code"""
+    out = []
+    for kind, t, p in boundary_payloads(rng):
+        tag = "chk%0*x" % (4 if kind == "crc16" else 8, t)
+        if kind == "crc16":
+            arcs = [make_arc(rng, p, 1), make_arc(rng, p, 2), make_arc(rng, p, 3),
+                    make_arcfs(rng, p, 2, allow_zero=True), make_arcfs(rng, p, 3, allow_zero=True)]
+        elif kind == "crc32":
+            arcs = [make_gzip(rng, p), make_gzip(rng, p, level=0), make_zip(rng, p, zipfile.ZIP_STORED),
+                    make_zip(rng, p, zipfile.ZIP_DEFLATED), make_xz(rng, p),
+                    make_xz_multi(rng, p, nblocks=1, stored=[True]), make_lzx_stored(rng, p)]
+        else:
+            arcs = [make_bz2(rng, p, level=1)]
+        for a in arcs:
+            if a is None:
+                continue
+            a["variant"] += "-" + tag
+            a["pname"] = "boundary-%s-%s" % (kind, tag)
+            a["budget"] = (60, 25, 15)
+            if a["fmt"] == "arcfs" and t == 0:
+                a["oracle"] = False          # stored CRC 0 = "not recorded", unchecked by design (arcfs.c): model tie only
+            out.append(a)
+    return out
+
+
+# --------------------------------------------------------------------------
+# archives with several loadable members
+# --------------------------------------------------------------------------
+
+TEXT = b"this member is not a module\r\n" * 3
+
+
+def _arc_entry(name, payload, method):
+    body = rle90(payload) if method == 3 else payload
+    hdr = bytes([0x1A, method]) + name.ljust(13, b"\0") + struct.pack("<IHHH", len(body), 0x2A21, 0x6000, crc16_arc(payload))
+    if method != 1:
+        hdr += struct.pack("<I", len(payload))
+    return hdr, body
+
+
+def make_arc_multi(rng, payloads):
+    """ARC: an excluded text member, then the modules; libxmp takes the first loadable one"""
+    data = bytearray()
+    fields = {}
+    ents = [(b"README", TEXT, 2)] + [(b"SONG%d.MOD" % i, p, rng.choice([2, 3])) for i, p in enumerate(payloads)]
+    for k, (name, p, m) in enumerate(ents):
+        hdr, body = _arc_entry(name, p, m)
+        fields["hdr%d" % k] = (len(data), len(hdr))
+        data += hdr
+        fields["blockdata%d_head" % k] = (len(data), min(8, len(body)))
+        data += body
+    data += b"\x1a\x00"
+    return _arch("arc", "multi%d" % len(payloads), "songs.arc", bytes(data), payloads[0], fields, crc16=True,
+                 extra={"members": [md5hex(p) for p in payloads[1:]]})
+
+
+def make_arcfs_multi(rng, payloads):
+    ents = [(b"README", TEXT, 2)] + [(b"song%d_mod" % i, p, rng.choice([2, 3])) for i, p in enumerate(payloads)]
+    if any(crc16_arc(p) == 0 for _, p, _ in ents):
+        return None
+    nent = len(ents) + 1
+    data_offset = 96 + 36 * nent
+    hdr = (b"Archive\0" + struct.pack("<IIIII", 36 * nent, data_offset, 200, 200, 0x0A)).ljust(96, b"\0")
+    table, area = bytearray(), bytearray()
+    fields = {"magic": (0, 8), "hdr": (8, 20)}
+    for k, (name, p, m) in enumerate(ents):
+        body = rle90(p) if m == 3 else p
+        ent = bytearray(36)
+        ent[0] = 0x80 | m
+        ent[1:12] = name.ljust(11, b"\0")
+        ent[12:16] = struct.pack("<I", len(p))
+        ent[16:24] = struct.pack("<II", 0xFFFFFF00 | 0x3F, 0x12345678)
+        ent[24] = 0x03
+        ent[26:28] = struct.pack("<H", crc16_arc(p))
+        ent[28:32] = struct.pack("<I", len(body))
+        ent[32:36] = struct.pack("<I", len(area))
+        fields["entry%d" % k] = (96 + 36 * k, 36)
+        fields["blockdata%d_head" % k] = (data_offset + len(area), min(8, len(body)))
+        table += ent
+        area += body
+    data = hdr + bytes(table) + bytes(36) + bytes(area)
+    return _arch("arcfs", "multi%d" % len(payloads), "songs.arcfs", data, payloads[0], fields, crc16=True,
+                 extra={"members": [md5hex(p) for p in payloads[1:]]})
+
+
+def make_lzx_multi(rng, payloads):
+    data = bytearray(b"LZX" + bytes([0, 0x0C, 0, 0x0A, 0x04, 0, 0]))
+    fields = {"magic": (0, 10)}
+    ents = [(b"song.txt", TEXT)] + [(b"song%d.mod" % i, p) for i, p in enumerate(payloads)]
+    for k, (name, p) in enumerate(ents):
+        ent = bytearray(31)
+        ent[2:6] = struct.pack("<I", len(p))
+        ent[6:10] = struct.pack("<I", len(p))
+        ent[10] = 0x0A
+        ent[15] = 0x0A
+        ent[18:22] = struct.pack(">I", rng.randrange(2 ** 32))
+        ent[22:26] = struct.pack("<I", crc32_bitwise(p))
+        ent[30] = len(name)
+        ent[26:30] = struct.pack("<I", crc32_bitwise(bytes(ent) + name))
+        fields["entry%d" % k] = (len(data), 31)
+        data += ent + name
+        fields["blockdata%d_head" % k] = (len(data), min(8, len(p)))
+        data += p
+    return _arch("lzx", "multi%d" % len(payloads), "songs.lzx", bytes(data), payloads[0], fields,
+                 extra={"members": [md5hex(p) for p in payloads[1:]]})
+
+
+def make_zip_multi(rng, payloads, streamed=False):
+    bio = _Unseekable() if streamed else io.BytesIO()
+    names = []
+    with zipfile.ZipFile(bio, "w") as z:
+        def add(name, data, m):
+            zi = zipfile.ZipInfo(name, date_time=(1996, 1, 1, 0, 0, 0))
+            zi.compress_type = m
+            z.writestr(zi, data)
+            names.append(name)
+        add("README", README, zipfile.ZIP_DEFLATED)
+        for i, p in enumerate(payloads):
+            add("song%d.mod" % i, p, rng.choice([zipfile.ZIP_STORED, zipfile.ZIP_DEFLATED]))
+            if i == 0:
+                add("file_id.diz", README, zipfile.ZIP_STORED)
+    data = bytes(bio.buf) if streamed else bio.getvalue()
+    eocd = data.rindex(b"PK\x05\x06")
+    cd = struct.unpack("<I", data[eocd + 16:eocd + 20])[0]
+    fields = {"eocd": (eocd, 22)}
+    p = cd
+    st = None
+    k = 0
+    while data[p:p + 4] == b"PK\x01\x02":
+        nl, el, cl = struct.unpack("<HHH", data[p + 28:p + 34])
+        name = data[p + 46:p + 46 + nl]
+        lho = struct.unpack("<I", data[p + 42:p + 46])[0]
+        lnl, lel = struct.unpack("<HH", data[lho + 26:lho + 30])
+        if name == b"song0.mod":
+            fields.update({"cdh": (p, 46), "cdh_name": (p + 46, nl), "lh": (lho, 30 + lnl)})
+            st = {"cdh": p, "lho": lho, "data": lho + 30 + lnl + lel}
+            csz = struct.unpack("<I", data[p + 20:p + 24])[0]
+            fields["blockdata0_head"] = (st["data"], min(8, csz))
+            fields["blockdata0_tail"] = (st["data"] + max(0, csz - 8), min(8, csz))
+        else:
+            fields["cdh%d" % k] = (p, 46)
+        k += 1
+        p += 46 + nl + el + cl
+    return _arch("zip", "multi%d%s" % (len(payloads), "-dd" if streamed else ""), "songs.zip", data, payloads[0], fields,
+                 extra={"zip": st, "members": [md5hex(q) for q in payloads[1:]]})
+
+
+def multi_member_archives(rng, payloads):
+    """2-3 loadable modules plus non-module members, in every format that can hold several members"""
+    ps = list(payloads)
+    out = [make_zip_multi(rng, ps), make_zip_multi(rng, ps[:2], streamed=True), make_arc_multi(rng, ps),
+           make_arcfs_multi(rng, ps), make_lzx_multi(rng, ps[:2])]
+    out = [a for a in out if a is not None]
+    for a in out:
+        a["pname"] = "multi"
+        a["budget"] = (150, 50, 20)
+    return out
 
 
 SEEDS = [("arc", "arc-method2", True), ("arc", "arc-method3", True), ("arc", "arc-method4", True),
